@@ -176,3 +176,17 @@ Definition summary_case (cp_aware : bool)
   end.
 
 Definition xlsx_case (c : xlsx_properties * (str * str * str * str * str)) : bool := props_eqb (xlsx_props (fst c)) (snd c).
+
+(* ---- ImageMetadata under a sequence of assignments: (constructor values, operations, final attributes, final items) *)
+From S2T Require Import C04.ModelImeta.
+Fixpoint items_eqb (a b : list (str * mval)) : bool :=
+  match a, b with
+  | [], [] => true
+  | (k, v) :: a', (k', v') :: b' => str_eqb k k' && mval_eqb v v' && items_eqb a' b'
+  | _, _ => false
+  end.
+Definition imeta_case (c : (mval * mval * mval * mval * mval) * list iop * (mval * mval * mval * mval * mval) * list (str * mval)) : bool :=
+  let '((u, n, ct, w, h), ops, (u', n', ct', w', h'), its) := c in
+  let x := run_ops (im_new u n ct w h) ops in
+  mval_eqb (a_unit x) u' && mval_eqb (a_num x) n' && mval_eqb (a_ctype x) ct' && mval_eqb (a_width x) w'
+  && mval_eqb (a_height x) h' && items_eqb (d_items x) its.
